@@ -322,7 +322,7 @@ def hist_key(inp, out):
         return 'out-of-scope: ' + out['why'][:40]
     t = inp['threads']
     return '%s%s/threads%s/%s/poison%s%s%s%s' % (
-        inp.get('api', 'tomtom'), ('/mixed-dtype' if inp.get('Qdt') else '') + ('/long-query' if inp.get('long') else '')
+        inp.get('api', 'tomtom'), ('/mixed-dtype' if inp.get('Qdt') else '') + ('/long-query' if inp.get('long') else '') + ('/prefix-queries' if inp.get('prefix') else '')
         + ('/batch>128' if inp.get('batch') and len(inp['idxs']) > 128 else ''), '1' if t == 1 else ('2-4' if t <= 4 else ('5-8' if t <= 8 else '9-16')),
         'full' if inp['nn'] is None else 'nn', inp.get('poison', 'A'),
         '' if out.get('hook') else '/HOOK-ABSENT', '/rc' if inp['rc'] else '', '/hash' if inp['ntb'] else '')
@@ -509,6 +509,42 @@ def long_variants(rng, base):
         dict(base, kind='variant', idxs=[1, 3], threads=2, chunk=0, nn=None, poison='A', api='tomtom', ncache=100)
 
 
+def gen_prefix_base(rng):
+    """a query, column-prefixes of it, a column-suffix and (by list duplication) exact duplicates: a per-thread
+    'same query as last time' shortcut must compare lengths too. Pool: 0 other, 1 full (10-14 columns),
+    2 full[:7], 3 full[:3], 4 other2, 5 full[-5:] (suffix, control), 6 an extension of full (mirror case)"""
+    rs = c14.np_rng(rng)
+    alpha, grid = rng.choice([0.3, 1.0]), rng.choice([0, 0, 4])
+    L = rng.randint(10, 14)
+    full = c14.pwm(rs, L, alpha, grid)
+    ext = [list(c) for c in full] + c14.pwm(rs, rng.randint(2, 5), alpha, grid)
+    Q = [c14.pwm(rs, rng.randint(4, 9), alpha, grid), full, [list(c) for c in full[:7]], [list(c) for c in full[:3]],
+         c14.pwm(rs, rng.randint(2, 6), alpha, grid), [list(c) for c in full[-5:]], ext]
+    T = [c14.pwm(rs, rng.choice([3, 5, 8, 12]), alpha, grid) for _ in range(rng.randint(3, 6))]
+    if c14.distinct_cols(T) < 2:
+        T.append(c14.pwm(rs, 2, 1.0, 0))
+    return {'Q': Q, 'T': T, 'nb': rng.choice([10, 20, 50]), 'rc': rng.random() < 0.5,
+            'ntb': 100 if grid and rng.random() < 0.5 else None, 'prefix': True}
+
+
+def prefix_variants(rng, base):
+    nT = len(base['T'])
+    lists = [[0, 1, 2, 3, 4, 1],        # full, then its prefixes, ..., full again
+             [1, 2], [1, 3], [2, 3],    # a query immediately followed by its own prefix
+             [2, 1], [3, 2, 1], [1, 6], [3, 6],   # prefix first / mirror: extension after the shorter one
+             [6, 1, 2, 3],              # chain of ever shorter prefixes
+             [1, 4, 2], [1, 0, 3],      # another query in between
+             [1, 5], [5, 1],            # suffix (control)
+             [1, 1], [2, 2, 1, 1],      # exact duplicates (control)
+             [0, 6, 1, 2, 3, 4, 5]]
+    k = 0
+    for idxs in lists:
+        for threads in ((1, 2, 3, 6) if len(idxs) <= 4 else (1, 2)):
+            k += 1
+            yield dict(base, kind='variant', idxs=idxs, threads=threads, chunk=rng.choice([0, 0, 1]),
+                       nn=None if k % 3 else rng.randint(1, nT), poison='A', api='tomtom')
+
+
 def gen_batch_base(rng):
     """130-200 short queries against a few targets: a call-size dependent code path (batching, sorting,
     chunking of the query list) must hand every row back to the query it belongs to"""
@@ -575,6 +611,10 @@ def generate(tier, rng):
     for _ in range(1 if quick else 3):
         base = gen_long_base(rng)
         for v in long_variants(rng, base):
+            yield v
+    for _ in range(1 if quick else 4):
+        base = gen_prefix_base(rng)
+        for v in prefix_variants(rng, base):
             yield v
     for _ in range(1 if quick else 3):
         base = gen_batch_base(rng)
